@@ -65,7 +65,7 @@ func H_C06_list() {
 		l[i] = elemC06()
 		idx[i] = i
 	}
-	d := map[string]interface{}{"l": l, "idx": idx}
+	d := map[string]interface{}{"l": l, "idx": idx, "y": vInt8()}
 	any := vBool()
 	q := "all"
 	if any {
@@ -73,10 +73,14 @@ func H_C06_list() {
 	}
 	var expr string
 	parts := make([]string, n)
-	mode := vChoose(5)
+	mode := vChoose(7)
 	for i := 0; i < n; i++ {
 		is := strconv.Itoa(i)
 		switch mode {
+		case 5:
+			parts[i] = "y == 2"
+		case 6:
+			parts[i] = "(any idx as q { q == 0 }) or y == 2"
 		case 0:
 			parts[i] = "l." + is + " == 1"
 		case 1:
@@ -90,6 +94,10 @@ func H_C06_list() {
 		}
 	}
 	switch mode {
+	case 5: // the body ignores the binding
+		expr = q + " l as x { y == 2 }"
+	case 6:
+		expr = q + " l as x { (any idx as q { q == 0 }) or y == 2 }"
 	case 0:
 		expr = q + " l as x { x == 1 }"
 	case 1:
